@@ -92,4 +92,20 @@ def run(ctx):
             ok = fresh and not others
             r.ob("R11.6.event-buffer-local", b.name, ok, "the event buffer is a fresh local Vec, only filled by the reader and cleared" if ok else
                  "event buffer fresh=%s, other users=%s" % (fresh, [cname(c.node) for c in others]), site=rd, key="R11.6|buffer")
+    # R11.6b the reader is only advanced event by event (and asked for its position for error reports)
+    allowed = ("read_event_into", "read_event", "buffer_position", "error_position")
+    n_uses = 0
+    for b in lib.real_bodies():
+        for cs in b.calls():
+            if not any("quick_xml::Reader<" in arg_ty(b, a).get("s", "") for a in cs.node["args"]):
+                continue
+            n_uses += 1
+            nm = cname(cs.node)
+            ok = cs.node["callee"].get("local") or (nm.startswith("quick_xml::") and method(cs.node) in allowed) or nm in ("std::ops::DerefMut::deref_mut", "std::ops::Deref::deref")
+            if not ok:
+                r.ob("R11.6.reader-only-advanced", "%s: %s" % (b.name, nm), False,
+                     "the reader is handed to `%s`: the library looks at the input other than through the event stream (buffering / configuration can become observable)" % nm,
+                     site=cs, key="R11.6b|%s|%s" % (b.name, nm))
+    r.ob("R11.6.reader-only-advanced", "library", True, "%d uses of the reader: only read_event_into / buffer_position and hand-over between the crate's own parser functions" % n_uses,
+         key="R11.6b|summary", nontrivial=n_uses > 0)
     r.trust("quick-xml yields the same event kinds and names for the same bytes regardless of BufRead chunking; expand_empty_elements turns Empty into Start+End")
